@@ -22,10 +22,18 @@ C15 driver.  One request = one pipeline run:
            `add.<pre>` / `ins.<pre>` / `rem.<pre>` add_to_graph / insert_all / remove_all on a store
            already holding `pre`; `small.<free>.<pre>` insert_all into a 16-bit-index graph with `free`
            free slots; `ser.<limit>.<e>` NT/NQ serializer over a writer failing after `limit` bytes
-* mode     `w` whole stream, `s` step-wise (`try` only)
+           `hs` / `bs` collect into HashSet / BTreeSet; `addh.<pre>` add_to_graph on a HashSet, `remb.<pre>`
+           remove_all on a BTreeSet; `rio.<ttl|trig|xml>.<limit>.<e>.<-|H|F|c<j>>` streaming Turtle / TriG /
+           RDF-XML serializer over a writer failing after `limit` bytes: the third-party formatter fails
+           nowhere / in its constructor / in `finish` / on `format` call j (observed with the formatter alone)
+* mode     `w` whole stream, `s` step-wise try_for_some_item, `S` step-wise try_for_some_triple/_quad (`try` only),
+           `f` step-wise for_some_triple/_quad (`for` only)
 
-Reply: `log ret side payload val steps final` from the mirrored code, `o.*` the same from the
-specification (`specResult` on `chainItems`), which is what the property demands.
+Reply: `log ret side payload val final pulled` from the mirrored code (`pulled` = source steps consumed;
+`info.steps` informational), and `o.*` the same from the specification (`specResult` on `chainItems`), which
+is what the property demands — only for consumers whose failure position the request itself fixes (not for
+`small`, `ser`, `rio`, where it derives from index slots / bytes: there the property is evaluated on the
+Rust side from what the writer / store was observed to do).
 -/
 
 namespace SophiaModel.Driver.C15
@@ -147,6 +155,8 @@ inductive Consumer where
   | remove (pre : List Item)
   | small (free : Nat) (pre : List Item)
   | ser (limit : Nat) (payload : String)
+  | set                              -- collect into HashSet / BTreeSet
+  | rio (plan : FmtPlan) (payload : String)
 
 def parseConsumer (cs : List Char) : Option Consumer :=
   match splitOn '.' cs with
@@ -156,11 +166,20 @@ def parseConsumer (cs : List Char) : Option Consumer :=
   | [['f', 'o', 'r']] => some .for_
   | [['v', 'e', 'c']] => some .vec
   | [['l', 'g']] | [['f', 'g']] => some .collect
+  | [['h', 's']] | [['b', 's']] => some .set
+  | ['r' :: 'i' :: 'o' :: [], _kind, _limit, e, fail] =>
+    let e := String.ofList e
+    match fail with
+    | ['-'] => some (.rio ⟨false, none, false⟩ e)
+    | ['H'] => some (.rio ⟨true, none, false⟩ e)
+    | ['F'] => some (.rio ⟨false, none, true⟩ e)
+    | 'c' :: j => (natOf j).map fun j => .rio ⟨false, some j, false⟩ e
+    | _ => none
   | ['s' :: 'm' :: 'a' :: 'l' :: 'l' :: [], f, pre] => do some (.small (← natOf f) (← parseItemsDots pre))
   | ['s' :: 'e' :: 'r' :: [], l, e] => (natOf l).map fun l => .ser l (String.ofList e)
   | [w, pre] =>
-    if w == "add".toList || w == "ins".toList then (parseItemsDots pre).map .insert
-    else if w == "rem".toList then (parseItemsDots pre).map .remove
+    if w == "add".toList || w == "ins".toList || w == "addh".toList then (parseItemsDots pre).map .insert
+    else if w == "rem".toList || w == "remb".toList then (parseItemsDots pre).map .remove
     else none
   | _ => none
 where
@@ -205,6 +224,8 @@ structure Out where
   val : Option Nat := none
   steps : Option Nat := none
   final : String := "-"
+  /-- how many steps were taken from the source (script length minus what is left) -/
+  pulled : Nat := 0
 
 def renderOut (pfx : String) (o : Out) : List String :=
   let (ret, side, payload) := match o.ret with
@@ -216,7 +237,10 @@ def renderOut (pfx : String) (o : Out) : List String :=
    kv (pfx ++ "payload") payload,
    kv (pfx ++ "val") (match o.val with | some n => toString n | none => "-"),
    kv (pfx ++ "final") o.final] ++
-  (match o.steps with | some n => [kv (pfx ++ "steps") (toString n)] | none => [])
+  (if pfx == "" then [kv "pulled" (toString o.pulled)] else []) ++
+  -- the number of `Ok(true)` rounds is not part of the property: informational only (no such field in the
+  -- implementation's reply)
+  (match o.steps with | some n => [kv (pfx ++ "info.steps") (toString n)] | none => [])
 
 def storeErr {α : Type} : Option (StreamResult α String StoreError) → Option (StreamResult Unit String String)
   | none => none
@@ -235,60 +259,80 @@ def isOk {α ε εk : Type} : Option (StreamResult α ε εk) → Bool
 def mkStore (free : Option Nat) (pre : List Item) : Store :=
   { present := pre.eraseDups, known := (pre.map Item.val).eraseDups, free := free }
 
-/-- the mirrored code, on any source -/
-def runConsumer {σ : Type} (S : Source σ Item String) (s : σ) (stepMode : Bool) : Consumer → Out
+/-- the mirrored code, on any source; `used s'` = number of source steps consumed when the source is left in state `s'` -/
+def runConsumer {σ : Type} (S : Source σ Item String) (s : σ) (used : σ → Nat) (stepMode : Bool) : Consumer → Out
   | .try_ j e =>
     if stepMode then
       match stepwise S (recSink j e) s ⟨[], 0⟩ with
-      | (_, st, n, r) => { log := st.log, ret := r, steps := some n }
+      | (s', st, n, r) => { log := st.log, ret := r, steps := some n, pulled := used s' }
     else
       match tryForEachItem S (recSink j e) s ⟨[], 0⟩ with
-      | (_, st, r) => { log := st.log, ret := r }
+      | (s', st, r) => { log := st.log, ret := r, pulled := used s' }
   | .for_ =>
+    -- whole (`for_each_item`) or step-wise (`for_some_triple` until false/Err): the same loop
     match forEachItem S recPush s ⟨[], 0⟩ with
-    | (_, st, r) => { log := st.log, ret := r.map fun
+    | (s', st, r) => { log := st.log, pulled := used s', ret := r.map fun
         | .ok () => .ok ()
         | .error e => .error (.source e) }
   | .vec =>
     match collectVec S s with
-    | (_, log, v, r) => { log := log, ret := storeErr r, final := if isOk r then renderItems v else "-" }
+    | (s', log, v, r) =>
+      { log := log, ret := storeErr r, final := if isOk r then renderItems v else "-", pulled := used s' }
+  | .set =>
+    match collectSet S s with
+    | (s', log, v, r) =>
+      { log := log, ret := storeErr r, final := if isOk r then renderItems (sortItems v) else "-", pulled := used s' }
   | .collect =>
     match collectStore S s (mkStore none []) with
-    | (_, log, g, r) =>
-      { log := log, ret := storeErr r, final := if isOk r then renderItems (sortItems g.present) else "-" }
+    | (s', log, g, r) =>
+      { log := log, ret := storeErr r, final := if isOk r then renderItems (sortItems g.present) else "-",
+        pulled := used s' }
   | .insert pre =>
     match insertAll S s (mkStore none pre) with
-    | (_, log, g, r) => { log := log, ret := storeErr r, val := okVal r, final := renderItems (sortItems g.present) }
+    | (s', log, g, r) =>
+      { log := log, ret := storeErr r, val := okVal r, final := renderItems (sortItems g.present), pulled := used s' }
   | .remove pre =>
     match removeAll S s (mkStore none pre) with
-    | (_, log, g, r) => { log := log, ret := storeErr r, val := okVal r, final := renderItems (sortItems g.present) }
+    | (s', log, g, r) =>
+      { log := log, ret := storeErr r, val := okVal r, final := renderItems (sortItems g.present), pulled := used s' }
   | .small free pre =>
     match insertAll S s (mkStore (some free) pre) with
-    | (_, log, g, r) => { log := log, ret := storeErr r, val := okVal r, final := renderItems (sortItems g.present) }
+    | (s', log, g, r) =>
+      { log := log, ret := storeErr r, val := okVal r, final := renderItems (sortItems g.present), pulled := used s' }
   | .ser limit e =>
     match serialize e S s limit with
-    | (_, log, w, r) => { log := log, ret := r, final := hexOfChars w.out }
+    | (s', log, w, r) => { log := log, ret := r, final := hexOfChars w.out, pulled := used s' }
+  | .rio plan e =>
+    match serializeRio plan e S s with
+    | (s', log, r) => { log := log, ret := r, pulled := used s' }
+
+/-- is the position of the sink's failure chosen by the request itself (then the specification can
+be printed as the oracle), or derived from bytes / index slots (then only the model fields are) -/
+def Consumer.hasOracle : Consumer → Bool
+  | .small .. | .ser .. | .rio .. => false
+  | _ => true
 
 def handle (line : String) : String :=
   match fields line with
   | "x" :: src :: chain :: cons :: mode :: _ =>
     match parseSrc src.toList, parseChain chain.toList, parseConsumer cons.toList with
     | some src, some c, some cons =>
-      let stepMode := mode == "s"
+      let stepMode := mode == "s" || mode == "S"
       let sc := match src with
         | .iter rs => rs.map Ev.ofResult
         | .script sc => sc
       let out := match c.iter, src with
-        | none, .iter rs => runConsumer (applyChain c.c1 iterSource) rs stepMode cons
-        | none, .script sc => runConsumer (applyChain c.c1 rioSource) sc stepMode cons
+        | none, .iter rs => runConsumer (applyChain c.c1 iterSource) rs (fun s' => rs.length - s'.length) stepMode cons
+        | none, .script sc => runConsumer (applyChain c.c1 rioSource) sc (fun s' => sc.length - s'.length) stepMode cons
         -- `.into_iter()`: the buffering iterator over the batch source (an iterator of `Result`s is the
         -- batch source with one-item steps: lemma `iter_tryForSome`), used as a `Source` under `c2`
         | some (a, c2), _ =>
-          runConsumer (applyChain c2 (intoIterSource (applyChain c.c1 rioSource) a)) ⟨sc, []⟩ stepMode cons
+          runConsumer (applyChain c2 (intoIterSource (applyChain c.c1 rioSource) a)) ⟨sc, []⟩
+            (fun st => sc.length - st.source.length) stepMode cons
       let c := c.all
       -- oracle: the consumer fed directly with what the chain means on the delivered items
-      let spec := runConsumer specSource (some (chainItems c (Ev.itemsOf sc), Ev.errorOf sc)) false cons
-      reply (renderOut "" out ++ (renderOut "o." { spec with steps := none }))
+      let spec := runConsumer specSource (some (chainItems c (Ev.itemsOf sc), Ev.errorOf sc)) (fun _ => 0) false cons
+      reply (renderOut "" out ++ (if cons.hasOracle then renderOut "o." { spec with steps := none } else []))
     | _, _, _ => "bad-op"
   | _ => "bad-op"
 
